@@ -216,6 +216,148 @@ std::vector<int> Model::colsizes() const {
   return cs;
 }
 
+// ------------------------------------------------------------------ JSON form of the IR
+namespace {
+double jdbl(const Json& v) {
+  if (v.is_num()) return v.as_double();
+  const std::string& s = v.as_str();
+  if (s == "Infinity") return INFINITY;
+  if (s == "-Infinity") return -INFINITY;
+  if (s == "NaN") return NAN;
+  return strtod(s.c_str(), nullptr);
+}
+Json ex_json(const Ex& e) {
+  Json j = Json::object();
+  j.set("t", std::string(1, e.tag));
+  switch (e.tag) {
+    case 'n': j.set("v", sim::dbl_hex(e.num)); if (e.numform != 'n') j.set("f", std::string(1, e.numform)); break;
+    case 'v': j.set("i", e.idx); break;
+    case 'h': j.set("s", e.str); break;
+    default: j.set("op", e.op); break;
+  }
+  if (!e.pl.empty()) { Json p = Json::array(); for (double d : e.pl) p.push(sim::dbl_hex(d)); j.set("pl", p); }
+  if (!e.a.empty()) { Json a = Json::array(); for (auto& k : e.a) a.push(ex_json(k)); j.set("a", a); }
+  return j;
+}
+Ex ex_from(const Json& j, int depth = 0) {
+  Ex e;
+  const std::string& t = j["t"].as_str();
+  e.tag = t.empty() ? 'n' : t[0];
+  if (e.tag != 'n' && e.tag != 'v' && e.tag != 'h' && e.tag != 'f' && e.tag != 'o') e.tag = 'n';
+  e.num = j.has("v") ? jdbl(j["v"]) : 0;
+  if (j.has("f") && !j["f"].as_str().empty()) e.numform = j["f"].as_str()[0];
+  e.idx = (int)j["i"].as_int(); e.str = j["s"].as_str(); e.op = (int)j["op"].as_int();
+  for (auto& d : j["pl"].arr()) e.pl.push_back(jdbl(d));
+  if (depth < 64) for (auto& k : j["a"].arr()) e.a.push_back(ex_from(k, depth + 1));
+  return e;
+}
+Json lin_json(const std::vector<Lin>& l) {
+  Json a = Json::array();
+  for (auto& t : l) { Json p = Json::array(); p.push(t.var); p.push(sim::dbl_hex(t.coef)); a.push(p); }
+  return a;
+}
+std::vector<Lin> lin_from(const Json& j, int nvars) {
+  std::vector<Lin> l;
+  for (auto& p : j.arr()) { int v = (int)p[(size_t)0].as_int(); if (v >= 0 && v < nvars) l.push_back({v, jdbl(p[(size_t)1])}); }
+  return l;
+}
+Json bound_json(const Bound& b) {
+  Json j = Json::object();
+  j.set("k", b.kind); j.set("lb", sim::dbl_hex(b.lb)); j.set("ub", sim::dbl_hex(b.ub));
+  if (b.kind == 5) { j.set("cf", b.cflags); j.set("cv", b.cvar); }
+  return j;
+}
+Bound bound_from(const Json& j) {
+  Bound b;
+  b.kind = (int)j["k"].as_int(3); b.lb = jdbl(j["lb"]); b.ub = jdbl(j["ub"]); b.cflags = (int)j["cf"].as_int(); b.cvar = (int)j["cv"].as_int();
+  return b;
+}
+Json pairs_json(const std::vector<std::pair<int, double>>& v) {
+  Json a = Json::array();
+  for (auto& p : v) { Json q = Json::array(); q.push(p.first); q.push(sim::dbl_hex(p.second)); a.push(q); }
+  return a;
+}
+std::vector<std::pair<int, double>> pairs_from(const Json& j, int limit) {
+  std::vector<std::pair<int, double>> v;
+  for (auto& p : j.arr()) { int i = (int)p[(size_t)0].as_int(); if (i >= 0 && i < limit) v.push_back({i, jdbl(p[(size_t)1])}); }
+  return v;
+}
+}  // namespace
+
+Json Model::to_json() const {
+  Json j = Json::object();
+  Json o = Json::array(); for (int i = 0; i < nopts; ++i) o.push(options[i]); j.set("options", o);
+  if (has_vbtol) j.set("vbtol", sim::dbl_hex(vbtol));
+  j.set("nvars", nvars);
+  Json vc = Json::array();
+  for (int x : {nlvb, nlvc, nlvo, nlvbi, nlvci, nlvoi, nbv, niv}) vc.push(x);
+  j.set("varclasses", vc);
+  j.set("hflags", hflags);
+  Json jc = Json::array();
+  for (auto& c : cons) { Json e = Json::object(); e.set("e", ex_json(c.e)); e.set("lin", lin_json(c.lin)); e.set("b", bound_json(c.b)); jc.push(e); }
+  j.set("cons", jc);
+  Json jl = Json::array(); for (auto& e : lcons) jl.push(ex_json(e)); j.set("lcons", jl);
+  Json jo = Json::array();
+  for (auto& ob : objs) { Json e = Json::object(); e.set("type", ob.type); e.set("e", ex_json(ob.e)); e.set("lin", lin_json(ob.lin)); jo.push(e); }
+  j.set("objs", jo);
+  Json jce = Json::array();
+  for (auto& ce : cexprs) { Json e = Json::object(); e.set("e", ex_json(ce.e)); e.set("lin", lin_json(ce.lin)); e.set("pos", ce.position); jce.push(e); }
+  j.set("cexprs", jce);
+  Json sp = Json::array(); for (int k = 0; k < 5; ++k) sp.push(cexpr_split[k]); j.set("cexpr_split", sp);
+  Json jf = Json::array();
+  for (auto& f : funcs) { Json e = Json::object(); e.set("name", f.name); e.set("type", f.type); e.set("nargs", f.nargs); jf.push(e); }
+  j.set("funcs", jf);
+  Json js = Json::array();
+  for (auto& sf : sufs) { Json e = Json::object(); e.set("name", sf.name); e.set("kind", sf.kind); e.set("real", sf.real); e.set("vals", pairs_json(sf.vals)); js.push(e); }
+  j.set("sufs", js);
+  Json jb = Json::array(); for (auto& b : vbounds) jb.push(bound_json(b)); j.set("vbounds", jb);
+  j.set("x0", pairs_json(x0)); j.set("d0", pairs_json(d0));
+  j.set("colmode", colmode); j.set("order", order);
+  return j;
+}
+
+Model Model::from_json(const Json& j) {
+  Model m;
+  m.nopts = 0;
+  for (auto& v : j["options"].arr()) if (m.nopts < 9) m.options[m.nopts++] = v.as_int();
+  for (int i = m.nopts; i < 9; ++i) m.options[i] = 0;
+  m.has_vbtol = j.has("vbtol") && m.nopts >= 2 && m.options[1] == 3;
+  if (m.has_vbtol) m.vbtol = jdbl(j["vbtol"]);
+  else if (m.nopts >= 2 && m.options[1] == 3) m.options[1] = 1;
+  m.nvars = (int)j["nvars"].as_int();
+  const Json& vc = j["varclasses"];
+  int* dst[8] = {&m.nlvb, &m.nlvc, &m.nlvo, &m.nlvbi, &m.nlvci, &m.nlvoi, &m.nbv, &m.niv};
+  for (size_t i = 0; i < 8; ++i) *dst[i] = (int)vc[i].as_int();
+  m.hflags = (int)j["hflags"].as_int();
+  for (auto& e : j["funcs"].arr()) { NLFunc f; f.name = e["name"].as_str(); f.type = (int)e["type"].as_int(); f.nargs = (int)e["nargs"].as_int(); m.funcs.push_back(f); }
+  for (auto& e : j["cons"].arr()) { NLCon c; c.e = ex_from(e["e"]); c.lin = lin_from(e["lin"], m.nvars); c.b = bound_from(e["b"]); m.cons.push_back(c); }
+  for (auto& e : j["lcons"].arr()) m.lcons.push_back(ex_from(e));
+  for (auto& e : j["objs"].arr()) { NLObj ob; ob.type = (int)e["type"].as_int(); ob.e = ex_from(e["e"]); ob.lin = lin_from(e["lin"], m.nvars); m.objs.push_back(ob); }
+  int nitems = (int)(m.cons.size() + m.lcons.size() + m.objs.size());
+  for (auto& e : j["cexprs"].arr()) {
+    CommonExpr ce; ce.e = ex_from(e["e"]); ce.lin = lin_from(e["lin"], m.nvars); ce.position = (int)e["pos"].as_int();
+    if (ce.position < 0 || ce.position > nitems) ce.position = 0;
+    m.cexprs.push_back(ce);
+  }
+  {   // the header's split of common expressions must add up to their number
+    int left = (int)m.cexprs.size();
+    for (int k = 0; k < 5; ++k) { int t = (int)j["cexpr_split"][(size_t)k].as_int(); if (t < 0) t = 0; if (t > left || k == 4) t = left; m.cexpr_split[k] = t; left -= t; }
+  }
+  for (auto& e : j["sufs"].arr()) {
+    NLSuffix sf; sf.name = e["name"].as_str(); sf.kind = (int)e["kind"].as_int() & 3; sf.real = e["real"].as_bool();
+    int items = sf.kind == 0 ? m.nvars : sf.kind == 1 ? (int)(m.cons.size() + m.lcons.size()) : sf.kind == 2 ? (int)m.objs.size() : 1;
+    sf.vals = pairs_from(e["vals"], items);
+    if (!sf.vals.empty() && !sf.name.empty()) m.sufs.push_back(sf);
+  }
+  for (auto& b : j["vbounds"].arr()) m.vbounds.push_back(bound_from(b));
+  m.vbounds.resize((size_t)std::max(0, m.nvars));
+  m.x0 = pairs_from(j["x0"], m.nvars);
+  m.d0 = pairs_from(j["d0"], (int)m.cons.size());
+  m.colmode = (int)j["colmode"].as_int(1);
+  if (j.has("order")) m.order = j["order"].as_str();
+  return m;
+}
+
 Model gen_model(Rng& rng, const GenOpts& o) {
   Model m;
   Gen g(rng, o, m);
